@@ -41,7 +41,7 @@ def gen(rng, i, tier, force_malformed=None):
         # hierarchical classes route unknown events differently (C09 excludes unknown names)
         c['history'] = [(k, e, a) for (k, e, a) in hist if e < ne] or [(1, 0, 100), (0, 0, 101)]
     if i % 5 == 4:
-        c['env']['bypos'] = {rng.randint(0, 6): (True, (3 + (i // 5) % 2, 1), [])}
+        c['env']['bypos'] = {rng.randint(0, 6): (True, flat.pick_exn(i // 5), [])}
         c['raising'] = True
     return c
 
@@ -122,7 +122,7 @@ def extra_checks(tier, seed):
     cases = []
     for i in range(n):
         rng = random.Random('C12h-%d-%d' % (seed, i))
-        c = hsm.gen_case(rng, hist_len=1, p_parallel=0.35, single_scope=(i % 3 != 0), p_enum=0.15)
+        c = hsm.gen_case(rng, hist_len=1, p_parallel=0.35, single_scope=(i % 3 != 0), p_enum=0.15, p_sep=0.2)
         c['env'] = dict(default=c['env']['default'], bypos={}, bycb={k: v for k, v in c['env']['bycb'].items() if v[1] is None})
         ne = 1 + max([e for e, _ in c['machine']['events']] + [e for _, d in hsm.all_defs(c['machine']) for e, _ in d['events']] + [0])
         hist = []
@@ -182,7 +182,7 @@ def async_hsm_stream(tier, seed):
     cases = []
     for i in range(n):
         rng = random.Random('C12ah-%d-%d' % (seed, i))
-        c = hsm.trim_lists(hsm.gen_case(rng, hist_len=1, p_parallel=0.35, single_scope=(i % 3 != 0), p_enum=0.15))
+        c = hsm.trim_lists(hsm.gen_case(rng, hist_len=1, p_parallel=0.35, single_scope=(i % 3 != 0), p_enum=0.15, p_sep=0.25))
         c['env'] = dict(default=c['env']['default'], bypos={}, bycb={k: v for k, v in c['env']['bycb'].items() if v[1] is None})
         ne = 1 + max([e for e, _ in c['machine']['events']] + [e for _, d in hsm.all_defs(c['machine']) for e, _ in d['events']] + [0])
         hist = []
